@@ -54,6 +54,7 @@ type world struct {
 	// inj: the keyspaces whose CURRENT table was installed by a `repl` line (hook, not the code's path) and has not been
 	// recomputed by the policy since
 	inj     map[string]bool
+	own     map[string]bool // (w-s11f) keyspaces whose table is observed on the policy (NetworkTopologyStrategy): computed by the code itself
 	slots   map[int]*slot
 	epoch   int          // number of mutating ops so far
 	taint   map[int]bool // hosts with non-commuting concurrent calls not yet settled by a sequential add/remove
@@ -388,10 +389,15 @@ func (w *world) specRefresh(ksName string) {
 	if !w.isTA || !w.partSet {
 		return
 	}
+	if m, ok := w.ksMeta[ksName]; ok && strings.HasPrefix(m, "nts:") {
+		w.observeTable(ksName)
+		return
+	}
 	delete(w.tables, ksName)
 	delete(w.tableDup, ksName)
 	delete(w.inj, ksName)
 	delete(w.held, ksName)
+	delete(w.own, ksName)
 	m, ok := w.ksMeta[ksName]
 	if !ok || m == "local" {
 		return
@@ -622,12 +628,13 @@ func (w *world) exec(op string) (res string) {
 		w.hot = false
 		w.lastPlain = nil
 		w.sessKs, w.ksMeta, w.held, w.inj = "", map[string]string{}, map[string]bool{}, map[string]bool{}
+		w.own = map[string]bool{}
 		w.slots, w.epoch, w.taint, w.pending, w.mutLog = map[int]*slot{}, 0, map[int]bool{}, nil, nil
 		w.poisoned = false
 		if w.isTA {
 			w.pol = newTA(fb, f[5] == "1", f[6] == "1")
 			gocql.VerifTAInit(w.pol, "verif_session_ks")
-			gocql.VerifTAKeyspaces(w.pol, "verif_session_ks", w.lookupKs)
+			gocql.VerifTAKeyspacesOpts(w.pol, "verif_session_ks", w.lookupKsOpts)
 			if f[7] == "1" {
 				w.pol.SetPartitioner("OrderedPartitioner")
 			}
@@ -687,6 +694,19 @@ func (w *world) exec(op string) (res string) {
 			delete(w.taint, atoi(f[1]))
 		}
 		return w.snapshot()
+	case "kstab":
+		// kstab <ks> none|empty|<tok>:<ids> ...   (w-s11f) the table the policy holds NOW for a NetworkTopologyStrategy keyspace
+		// (the line is generated from the observation; the model adopts it - placement is C10's subject)
+		if len(f) < 3 || !w.isTA {
+			return "bad-op"
+		}
+		w.epoch++
+		w.lastPlain = nil
+		w.observeTable("ks" + f[1])
+		if got := w.showObserved("ks" + f[1]); got != strings.Join(f[2:], " ") {
+			return "differs:" + got
+		}
+		return "ok"
 	case "setpart":
 		// setpart: SetPartitioner("OrderedPartitioner") - the partitioner becomes known AFTER hosts / keyspaces (a second
 		// call with the same name changes nothing); the round-robin based policies ignore it
@@ -765,7 +785,7 @@ func (w *world) exec(op string) (res string) {
 		w.epoch++
 		w.sessKs = "ks" + f[1]
 		if w.isTA {
-			gocql.VerifTAKeyspaces(w.pol, w.sessKs, w.lookupKs)
+			gocql.VerifTAKeyspacesOpts(w.pol, w.sessKs, w.lookupKsOpts)
 		}
 		return "ok"
 	case "ksmeta":
@@ -896,6 +916,9 @@ func (w *world) exec(op string) (res string) {
 			return "excluded"
 		}
 		fresh := w.specFresh(f[1])
+		if w.own["ks"+f[1]] {
+			fresh = true // a table the policy computed itself: a host it does not know is not excused in the head
+		}
 		var rk []byte
 		if f[1] != "-" && f[2] != "-" {
 			rk = []byte(tok(atoi(f[2])))
@@ -919,7 +942,8 @@ func (w *world) exec(op string) (res string) {
 		reps, known, _ := w.specReplicas(f[1], f[2], perms)
 		if known {
 			headAny = w.specHead(reps)
-			if !hasDup(reps) {
+			if !hasDup(reps) || w.own[ksName] {
+				// (a duplicate in a table the policy computed ITSELF is not excused: the sequence is held to 'no host twice')
 				head = headAny
 			} else {
 				dupReps = true
@@ -1098,11 +1122,11 @@ func (w *world) exec(op string) (res string) {
 			}
 			gocql.VerifSeedShuffle(sd)
 		}
-		sl := &slot{epoch: w.epoch, fresh: w.specFresh(f[2])}
+		sl := &slot{epoch: w.epoch, fresh: w.specFresh(f[2]) || w.own["ks"+f[2]]}
 		sl.reps, sl.known, _ = w.specReplicas(f[2], f[3], perms)
 		if sl.known {
 			sl.headAny = w.specHead(sl.reps)
-			if !hasDup(sl.reps) {
+			if !hasDup(sl.reps) || w.own["ks"+f[2]] {
 				sl.head = sl.headAny
 			} else {
 				sl.dupReps = true
@@ -1459,6 +1483,78 @@ func (w *world) sortedShow(got []*gocql.HostInfo) string {
 }
 
 // lookupKs: the keyspace metadata the token-aware policy is given (getKeyspaceMetadata)
+// lookupKsOpts: the keyspace metadata the policy reads: SimpleStrategy rf / LocalStrategy / (w-s11f)
+// NetworkTopologyStrategy "nts:<dc>=<rf>;..." (datacenters named as the hosts' are: dc<n>)
+func (w *world) lookupKsOpts(ks string) (string, map[string]interface{}, bool) {
+	m, ok := w.ksMeta[ks]
+	if !ok {
+		return "", nil, false
+	}
+	if strings.HasPrefix(m, "nts:") {
+		opts := map[string]interface{}{}
+		for i, kv := range strings.Split(m[4:], ";") {
+			p := strings.SplitN(kv, "=", 2)
+			if len(p) != 2 {
+				continue
+			}
+			if i%2 == 0 {
+				opts["dc"+p[0]] = p[1] // as the schema tables give it: a string
+			} else {
+				opts["dc"+p[0]] = atoi(p[1])
+			}
+		}
+		return "org.apache.cassandra.locator.NetworkTopologyStrategy", opts, true
+	}
+	class, rf, ok := w.lookupKs(ks)
+	return class, map[string]interface{}{"replication_factor": rf}, ok
+}
+
+// observeTable: (w-s11f) the replica table of a NetworkTopologyStrategy keyspace is TAKEN FROM THE POLICY (placement is
+// C10's subject: theorems and campaign there); what C11 checks is what the policy does with it - a table the policy
+// computed itself is held to the property in full (no host twice is excused: w.own)
+func (w *world) observeTable(ksName string) {
+	delete(w.tables, ksName)
+	delete(w.tableDup, ksName)
+	delete(w.inj, ksName)
+	delete(w.held, ksName)
+	if w.own == nil {
+		w.own = map[string]bool{}
+	}
+	w.own[ksName] = true
+	toks, hs, ok := gocql.VerifTAReplicaTable(w.pol, ksName)
+	if !ok {
+		return
+	}
+	w.held[ksName] = true
+	w.inj[ksName] = true // not a table the MODEL computes: `offer` needs a head of known hosts
+	tab := make([]tabEntry, len(toks))
+	for i := range toks {
+		tab[i] = tabEntry{tok: atoi(toks[i]), hosts: append([]*gocql.HostInfo(nil), hs[i]...)}
+		if hasDup(hs[i]) {
+			w.tableDup[ksName] = true
+		}
+	}
+	if len(tab) > 0 {
+		w.tables[ksName] = tab
+	}
+}
+
+// showObserved: the table the policy holds for a keyspace, as a `kstab` line carries it
+func (w *world) showObserved(ksName string) string {
+	toks, hs, ok := gocql.VerifTAReplicaTable(w.pol, ksName)
+	if !ok {
+		return "none"
+	}
+	if len(toks) == 0 {
+		return "empty"
+	}
+	parts := make([]string, len(toks))
+	for i := range toks {
+		parts[i] = strconv.Itoa(atoi(toks[i])) + ":" + w.showIDs(hs[i])
+	}
+	return strings.Join(parts, " ")
+}
+
 func (w *world) lookupKs(ks string) (string, interface{}, bool) {
 	m, ok := w.ksMeta[ks]
 	if !ok {
@@ -2587,6 +2683,150 @@ func (g *gen) lazyScenario(idx int) {
 	}
 }
 
+// ntsScenario (family 7, "the production shape"): a token-aware policy over rr | dc | rack whose keyspace 1 uses
+// NetworkTopologyStrategy (rf 1..4 in dc0, 0..3 in dc1, now and then a datacenter that is not in the ring) - as the
+// SESSION keyspace (recomputed on every change of the host list) or as another keyspace (KeyspaceChanged, then
+// recomputed too); 4..9 hosts in 2..3 datacenters x 1..3 racks with 1..3 tokens each (vnodes). The table is computed
+// by the REAL updateReplicas -> getStrategy -> networkTopology.replicaMap; the model does not compute it (placement is
+// C10's subject): after every call that can change it a `kstab` line hands the model the table the policy holds.
+// What is checked here is what the policy DOES with such tables: after every step routed full drains on every token
+// of the table (up to 6) and two random ones, `offer` (spec-backed) unless excluded; the harness holds every real
+// sequence to the property in full - no host twice is excused for a table the policy computed itself.
+func (g *gen) ntsScenario(idx int) {
+	r := g.r
+	g.kind = []string{"dc", "rack", "rr"}[idx%3]
+	g.ta = true
+	shuffle := r.Intn(4) == 0
+	g.nonlocal = r.Bool()
+	g.ldc, g.lrack = r.Intn(2), r.Intn(2)
+	g.emit(fmt.Sprintf("reset %s 1 %d %d %s %s 1", g.kind, g.ldc, g.lrack, b01(shuffle), b01(g.nonlocal)), "reset/"+g.kind+"/ta1", false)
+	g.n = 4 + r.Intn(6)
+	g.sess = -1
+	ndc := 2
+	if r.Intn(4) == 0 {
+		ndc = 3
+	}
+	nrack := 1 + r.Intn(3)
+	// every other scenario is DENSE: most hosts in dc0 on two racks, 2..3 tokens per host, rf(dc0) above the number of
+	// racks - the ring walk then parks hosts whose rack was used already and drains them later
+	dense := idx%2 == 0
+	if dense {
+		g.n = 5 + r.Intn(5)
+		nrack = 2
+	}
+	for id := 1; id <= g.n; id++ {
+		var toks []string
+		nt := 1 + r.Intn(3)
+		dc := r.Intn(ndc)
+		if dense {
+			nt = 2 + r.Intn(2)
+			dc = 0
+			if r.Intn(5) == 0 {
+				dc = 1
+			}
+		}
+		for j := 0; j < nt; j++ {
+			toks = append(toks, strconv.Itoa(j*1000+id*10+r.Intn(10)))
+		}
+		g.emit(fmt.Sprintf("host %d %d %d %d %s", id, id, dc, r.Intn(nrack), strings.Join(toks, ",")), "host", false)
+	}
+	rf0 := 1 + r.Intn(4)
+	if dense {
+		rf0 = 3 + r.Intn(3)
+	}
+	meta := fmt.Sprintf("nts:0=%d;1=%d", rf0, r.Intn(4))
+	if r.Intn(6) == 0 {
+		meta += ";3=1" // a datacenter no host is in
+	}
+	if ndc == 3 && r.Bool() {
+		meta += fmt.Sprintf(";2=%d", 1+r.Intn(2))
+	}
+	sessNts := r.Bool()
+	if sessNts {
+		g.sess = 1
+		g.emit("sessks 1", "sessks", false)
+	}
+	g.emit("ksmeta 1 "+meta, "ksmeta/nts", false)
+	sync := func() {
+		g.emit("kstab 1 "+g.w.showObserved("ks1"), "kstab", true)
+	}
+	observe := func() {
+		var toks []int
+		for _, e := range g.w.tables["ks1"] {
+			toks = append(toks, e.tok)
+		}
+		for i := len(toks) - 1; i > 0; i-- {
+			j := r.Intn(i + 1)
+			toks[i], toks[j] = toks[j], toks[i]
+		}
+		if len(toks) > 6 {
+			toks = toks[:6]
+		}
+		for _, t := range toks {
+			g.pickWith("1", strconv.Itoa(t), 1000, true)
+		}
+		g.pickWith("1", strconv.Itoa(r.Intn(3200)), 1000, true)
+		g.pickWith("1", strconv.Itoa(r.Intn(3200)), 1000, true)
+		if r.Intn(3) == 0 {
+			g.pickWith("-", "-", 1000, true)
+		}
+	}
+	var first []string
+	for id := 1; id <= g.n; id++ {
+		if r.Intn(5) != 0 {
+			first = append(first, strconv.Itoa(id))
+		}
+	}
+	if len(first) == 0 {
+		first = []string{"1"}
+	}
+	if r.Bool() {
+		g.emit("addhosts "+strings.Join(first, ","), "addhosts/nts", true)
+	} else {
+		for _, id := range first {
+			g.emit("add "+id, "add", true)
+		}
+	}
+	if !sessNts || r.Intn(3) == 0 {
+		g.emit("kschg 1", "kschg", true)
+	}
+	sync()
+	observe()
+	for i := 5 + r.Intn(6); i > 0; i-- {
+		id := 1 + r.Intn(g.n)
+		switch x := r.Intn(100); {
+		case x < 25:
+			g.emit(fmt.Sprintf("add %d", id), "add", true)
+		case x < 50:
+			g.emit(fmt.Sprintf("remove %d", id), "remove", true)
+		case x < 60:
+			if g.w.stat(id).known {
+				g.emit(fmt.Sprintf("state %d 1", id), "state", false)
+				g.emit(fmt.Sprintf("hup %d", id), "hup", true)
+			}
+		case x < 72:
+			g.emit(fmt.Sprintf("state %d 0", id), "state", false)
+			g.emit(fmt.Sprintf("hdown %d", id), "hdown", true)
+		case x < 80:
+			g.emit(fmt.Sprintf("state %d %d", id, r.Intn(2)), "state", false)
+		case x < 90:
+			g.emit("kschg 1", "kschg", true)
+		default:
+			var ids []string
+			for j := 1; j <= g.n; j++ {
+				if r.Intn(3) == 0 {
+					ids = append(ids, strconv.Itoa(j))
+				}
+			}
+			if len(ids) > 0 {
+				g.emit("addhosts "+strings.Join(ids, ","), "addhosts/nts", true)
+			}
+		}
+		sync()
+		observe()
+	}
+}
+
 // rngPerm: a permutation of 0..n-1 from the harness' own generator
 func rngPerm(r *vh.Rng, n int) []int {
 	p := make([]int, n)
@@ -3545,6 +3785,14 @@ func main() {
 	}
 	for i := 0; i < nlz; i++ {
 		g.lazyScenario(i)
+	}
+	// (w-s11f) NTS family: keyspaces with NetworkTopologyStrategy, tables computed by the policy itself
+	nnt := 80
+	if tier == "thorough" {
+		nnt = 2400
+	}
+	for i := 0; i < nnt; i++ {
+		g.ntsScenario(i)
 	}
 	extra := map[string]interface{}{}
 	if tier == "thorough" {
